@@ -36,6 +36,11 @@ checks = {
   level=dict(category="exploration", design_ref="DESIGN.md §4.2",
     text="seeded search over schedules/faults of generated 2-8 task workloads per primitive (raw semaphore, notify list, Mutex, RWMutex, WaitGroup, Once, Cond, atomic.Value); every run checked for mutual exclusion, admission after release (no lost wake-up at quiescence), Wait-only-after-notify, Wait-only-at-zero, once-exactly-once, register linearizability, bounded liveness in a fair fault-free phase"),
   note="trusted: simulated pthread semantics; sequentially consistent stub atomics (the property's clause on hardware indivisibility / total order of sync/atomic operations is NOT decided here and cannot be by this technique); the go-statement clause is not exercised in this layer; std Go compiler compiles the lifted sources like llgo."),
+"C20": dict(
+  technique="deterministic simulation with fault injection: the real fetch.go on a simulated OS seam (real files in a private sandbox behind intercepted, confinement-checked system calls; simulated flock, HTTP transport and process crashes), seeded schedules of 1-4 concurrent requesting processes, generated hostile/odd/benign archives in three formats, network/disk/crash fault plans; oracles: confinement at the seam and by post-run sweep, content equality, atomic publication at every step, rejection of escaping entries, bounded liveness in fault-free runs",
+  level=dict(category="exploration", design_ref="DESIGN.md §4.4",
+    text="seeded search over (archive, schedule, fault plan): every file-system call of the real extraction/locking code is a scheduling point checked against the destination's own tree before it takes effect; the destination is verified complete at the step it becomes visible; sampling, not proof"),
+  note="trusted: simulated flock (inode-keyed, dropped on crash), simulated HTTP, real kernel file semantics under /dev/shm, GNU tar as one atomic step; power loss not modelled; for .tar.xz only confinement (not rejection-with-error) is asserted because GNU tar neutralises hostile names instead of failing."),
 }
 for k in list(pending):
     if k in checks: del pending[k]
